@@ -104,7 +104,7 @@ def gen_inputs(tier, rng):
     descs = []
     for k, h in enumerate(DIRECTED):
         descs.append({"pre": [], "steps": h, "filter": ["a", k % 2]})
-    depth, nrand = (2, 110) if tier == "quick" else (4, 1500)
+    depth, nrand = (2, 230) if tier == "quick" else (4, 1500)
     alpha = _alphabet2()
     for pre in PREFIXES:
         for n in range(1, depth + 1):
